@@ -15,7 +15,8 @@ HYPOTHESES = ["HB4_hash"]
 NOT_YET_PROVED = []
 ASSUMPTIONS = ["published EIP-2333/Ethereum vectors cannot be fetched offline; two anchors typed from independent recollection are used"]
 nontrivial = nontrivial_default
-EXTRA_MODULES = {"Props.TieCodec": "PyEcc.Tie.", "Props.TieSwu": "PyEcc.Tie.", "Props.TieHash": "PyEcc.Tie."}
+EXTRA_MODULES = {"Props.TieCodec": "PyEcc.Tie.", "Props.TieSwu": "PyEcc.Tie.", "Props.TieHash": "PyEcc.Tie.", "Props.TieBls": "PyEcc.Tie.", "Props.TieBlsAgg": "PyEcc.Tie."}
+
 CHUNK = 4
 
 GEN_COMPRESSED = bytes.fromhex("97f1d3a73197d7942695638c4fa9ac0fc3688c4f9774b905a14e3a3f171bac586c55e83ff97a1aeffb3af00adb22c6bb")
